@@ -56,6 +56,7 @@ def descriptor(rec, k):
         "class_bound_name_global_lookup": "clsname" in o["fl"],
         "minmax_arg_order_observable": "minmax" in o["fl"],
         "literal_binop_raises": "constop" in o["fl"],
+        "one_char_literal_ordered_against_bint": "chrbint" in o["fl"],
         "has_class": "class" in tags,
         "has_closure": any(t.startswith("def:h") or t == "lambda" for t in tags),
     }
@@ -98,6 +99,10 @@ def cy_error_class(msg):
         return "unpack-count"
     if re.search(r"Index -?\d+ out of bounds", msg):
         return "index-out-of-bounds"
+    if "no starred arg found when splitting starred assignment" in msg or "Compiler crash in PostParse" in msg:
+        return "crash-starred-assignment"
+    if re.search(r"local variable '\w+' referenced before assignment", msg):
+        return "referenced-before-assignment"
     return "other"
 
 
@@ -237,7 +242,8 @@ def run(tier, seed):
     for r in recs:
         for o in r["obs"]:
             kinds[o["kind"] + (":" + o["ty"] if o["kind"] == "exc" else "")] += 1
-    if missing or kinds["ret"] == 0 or not any(k.startswith("exc") for k in kinds):
+    # the quick tier draws few programs: a couple of rare productions may be absent there
+    if len(missing) > (4 if tier == "quick" else 0) or kinds["ret"] == 0 or not any(k.startswith("exc") for k in kinds):
         core.die("vacuous model run: productions never generated %s, observation kinds %s" % (missing, dict(kinds)))
 
     # ---- P leg (CPython executes the rendered modules) and C leg (compiled from the snapshot)
@@ -306,7 +312,8 @@ def run(tier, seed):
                 desc = descriptor(r, 0)
                 desc.update({"expect": "compiles", "site": "", "expect_type": "", "stale_name_operand": False,
                              "class_scope_skipped": False, "class_bound_name_global_lookup": False,
-                             "minmax_arg_order_observable": False, "literal_binop_raises": False})
+                             "minmax_arg_order_observable": False, "literal_binop_raises": False,
+                             "one_char_literal_ordered_against_bint": False})
                 desc.update(lp.static_features(r["prog"]))
                 rep.disagree(desc, oc, {"source": r["source"], "stage": stage, "message": msg})
                 continue
